@@ -244,6 +244,25 @@ class ConstLists(Component):
       s.out @= s.tbl_b[s.sel] + s.tbl_a[s.sel] + s.tbl_c[0]
 
 
+class LamInc(Component):
+  """the block comes from a lambda connection: its generated name contains the full path of the driven signal"""
+  def construct(s, amount=1):
+    s.in_ = InPort(Bits8)
+    s.out = OutPort(Bits8)
+    s.out //= lambda: s.in_ + amount
+
+
+class LamCond(Component):
+  """two different lambdas for one signal, chosen by a parameter (the documented reason why lambda blocks are not cached per class)"""
+  def construct(s, amount=1):
+    s.in_ = InPort(Bits8)
+    s.out = OutPort(Bits8)
+    s.w = Wire(Bits8)
+    if amount == 1: s.w //= lambda: s.in_ + 1
+    else:           s.w //= lambda: s.in_ ^ 0x33
+    s.out //= lambda: s.w & 0x7F
+
+
 # (label, factory) ; a factory returns a fresh component instance
 def catalogue():
   S1 = mk_struct({"a": Bits4, "b": Bits4})
@@ -272,6 +291,7 @@ def catalogue():
     ("FnParam(double)", lambda: FnParam(double)), ("FnParam(triple)", lambda: FnParam(triple)),
     ("TwinA()", lambda: TwinA()), ("TwinB()", lambda: TwinB()),
     ("UsesGlobal[k=4]", glob(4)), ("UsesGlobal[k=6]", glob(6)),
+    ("LamInc(1)", lambda: LamInc(1)), ("LamInc(2)", lambda: LamInc(2)), ("LamCond(1)", lambda: LamCond(1)), ("LamCond(2)", lambda: LamCond(2)),
   ]
 
 
